@@ -6,9 +6,16 @@ cd "$(dirname "$0")"
 export GOFLAGS=-mod=mod GOPROXY=off GOSUMDB=off GOTOOLCHAIN=local CGO_ENABLED=0
 export GOCACHE="${GOCACHE:-$HOME/.cache/go-build}"
 id="$1"; tier="${2:-${VERIF_TIER:-quick}}"
+mkdir -p bin evidence replays .work
+# VERIF_REPO (optional, default /repo): build against another checkout - used only for background
+# validation runs from a snapshot (vp run --with-repo); the registered commands never set it
+MODFLAG=""
+if [ -n "${VERIF_REPO:-}" ] && [ "$VERIF_REPO" != /repo ]; then
+  sed "s|=> /repo\$|=> $VERIF_REPO|" go.mod > .work/alt.mod; cp go.sum .work/alt.sum 2>/dev/null || cp "$VERIF_REPO/go.sum" .work/alt.sum
+  MODFLAG="-modfile=.work/alt.mod"
+fi
 if [ "$id" = C19 ]; then exec ./run19.sh "$tier"; fi
-mkdir -p bin evidence replays
-if ! go build -o bin/vcheck ./cmd/vcheck 2>bin/build.log; then
+if ! go build $MODFLAG -o bin/vcheck ./cmd/vcheck 2>bin/build.log; then
   echo "SELF-CHECK property=$id build of the checker against /repo failed:"; cat bin/build.log
   exit 2
 fi
@@ -20,7 +27,7 @@ if [ "$id" = C13 ]; then
   echo "$out1" | grep -v '^OK property=C13'
   mkdir -p .work
   python3 e4/gen_overlay.py 13 > .work/overlay13.log 2>&1 || { cat .work/overlay13.log; echo "SELF-CHECK property=C13 overlay generation failed"; exit 2; }
-  go build -overlay .work/overlay13.json -tags e4 -o bin/vcheck13 ./cmd/vcheck19 2> .work/build13.log || { cat .work/build13.log; echo "SELF-CHECK property=C13 E4 build (overlay) failed"; exit 2; }
+  go build $MODFLAG -overlay .work/overlay13.json -tags e4 -o bin/vcheck13 ./cmd/vcheck19 2> .work/build13.log || { cat .work/build13.log; echo "SELF-CHECK property=C13 E4 build (overlay) failed"; exit 2; }
   [ $rc1 = 0 ] || [ $rc1 = 1 ] || exit $rc1
   ./bin/vcheck13 "$tier" stage13; rc2=$?
   [ $rc1 = 1 ] && exit 1
